@@ -450,7 +450,41 @@ func c05Equality(c *Ctx, arms map[int64]OpArm) {
 					}
 				}
 			}
-			c.R.Check(rs, "bool-kind", pos, okB, "booleans of identical type compare with Go == on the two values")
+			// ... or, as the loose form does, their images under the number coercion (true is 1, false is 0:
+		// C05.equality-predicate reads that table) compared with Cmp(..) == 0
+		if !okB {
+			coerce := c.fn("convToNumber")
+			for _, ret := range r.Returns {
+				bo, ok := ret.Results[0].(*ssa.BinOp)
+				if !ok || bo.Op != token.EQL || coerce == nil {
+					continue
+				}
+				if k, isK := constIntArg(bo.Y); !isK || k != 0 {
+					continue
+				}
+				cmp, ok := bo.X.(*ssa.Call)
+				if !ok || !strings.HasSuffix(callName(cmp), "decimal.Big).Cmp") || len(cmp.Call.Args) != 2 {
+					continue
+				}
+				side := func(v ssa.Value) int {
+					cl, ok := v.(*ssa.Call)
+					if !ok || calleeOf(cl) != coerce || len(cl.Call.Args) != 1 {
+						return -1
+					}
+					switch {
+					case c.derivedFrom(cl.Call.Args[0], ops[0]):
+						return 0
+					case c.derivedFrom(cl.Call.Args[0], ops[1]):
+						return 1
+					}
+					return -1
+				}
+				if a, b := side(cmp.Call.Args[0]), side(cmp.Call.Args[1]); a >= 0 && b >= 0 && a != b {
+					okB = true
+				}
+			}
+		}
+		c.R.Check(rs, "bool-kind", pos, okB, "booleans of identical type compare with Go == on the two values")
 		}
 	}
 	c.R.Floor(re, 6)
